@@ -22,7 +22,7 @@ func init() {
 			"Non-trivial: Query(P) yields at least one item; distinct by (path, split point, document, decoding)",
 		Run:          runC09,
 		Replay:       replayC09,
-		MinExercised: map[string]int64{"split.items": 5000, "split.err": 500, "split.silent": 3000, "P-fails": 200, "var-head": 1000, "outer-current": 5000, "literal-head": 300, "context": 10000, "quiescent": 10000},
+		MinExercised: map[string]int64{"split.items": 5000, "split.err": 500, "split.silent": 3000, "P-fails": 200, "var-head": 1000, "outer-current": 5000, "outer-last": 100, "literal-head": 300, "context": 10000, "quiescent": 10000},
 		Assumptions: []string{
 			"S contains no $ (root-independent); strict-mode splits whose prefix contains .** are excluded (the structural-error flag legitimately spans the continuation); keyvalue ids are masked (base object differs)",
 			"paths that expand object members get single-member objects so that the executions are comparable",
@@ -549,6 +549,9 @@ func replayC09(c *h.Ctx, cs h.Case) {
 }
 
 func runC09(c *h.Ctx) {
+	// "after a nested subscript last again denotes the outer array": also in
+	// the steps that follow the nested subscript (shared with C14)
+	checkLastScope(c, "outer-last")
 	r := c.Rand("c09")
 	g := &gen.G{R: r, C: gen.DefaultCfg()}
 	g.C.Datetime = true
